@@ -28,6 +28,22 @@ CHECKS["C13"] = dict(
     text="TLC explores all interleavings of caller, reader and writer threads over the slot ring for small sizes (ownership, once-in-order, determinism, absence of deadlock, termination under weak fairness, both signalling disciplines, mono mode); every real run's slot hand-over trace (hook H1, events taken under io_mutex) must be a behaviour of the specification, and parity/content/errors must be identical across cache depths 1..128 and yield seeds.",
     note="Small ring sizes in the model; wake-ups are not observable in traces (covered by liveness on the model and hang detection on real runs); writer-error accounting is excluded (defects F3/F4, see C08).")
 
+CHECKS["C16"] = dict(
+    cat="translation_validation", design="6/C16",
+    technique="vendored reference arrays and digest/CRC/parity vectors of the pinned version, doubly anchored by independent Python implementations of the TLA+-owned definitions (content encoding, GF(2^8) coefficients); current build must load, verify, rebuild and reproduce them",
+    text="Reference version vs current version on stored inputs: 20 golden arrays (both hash kinds, hash sizes 2..16, 1..6 parities, z-parity, split layouts, formats v2/v3, rehash in progress) are loaded, checked, damaged within the parity count in every subset, fixed and compared with vendored manifests; 4404 digest/CRC vectors and 128 parity vectors are recomputed by every implementation variant of the current build.",
+    note="The digests of Murmur3/SpookyHash are numeric functions: decided by recorded reference behaviour plus independent transliterations, not by TLC (DESIGN.md section 8).")
+CHECKS["C07"] = dict(
+    cat="fault_enumeration", design="4.2, 6/C07",
+    technique="ArraySteps.tla (sync refined into per-system-call steps with Crash anywhere) checked by TLC; every state-changing system call of real sync/fix runs is a kill point (before/after/short write) enumerated with an LD_PRELOAD shim; each execution validated by TLC against ArrayTrace.tla",
+    text="TLC checks on the step model that every crash state is safe (data untouched, every content copy whole, synced stripes valid for every copy, resume converges, old files recoverable when only additions are pending); on the binary every state-changing call of sync and fix is a kill point, SIGINT at stripes, followed by resume, check and a loss/fix round, all validated as traces.",
+    note="Kill model: SIGKILL of the process, no power loss. The autosave defect (F5) is reported as a known finding by its signature.")
+CHECKS["C08"] = dict(
+    cat="fault_enumeration", design="4.2, 6/C08",
+    technique="ArraySteps.tla with failing parity writes (writer error counters as in io.c) checked by TLC; EIO/ENOSPC injected by the shim at every data read, parity read and parity write of real sync/scrub runs over io-cache depths; C08 evaluated by TLC on the projected post-state",
+    text="Every read/write call on data and parity files of real sync and scrub runs is a fault point; the post-state must show a failing status and the stripe unsynced or bad, and the follow-up fix -e / sync / check are validated against the specification. Reader-side faults hold; writer-side faults reproduce the two announced defects (F3, F4), reported as known findings by signature.",
+    note="One injected fault per run; faults injected at the libc call.")
+
 ARRAY_NOTE = ("Abstractions of Array.tla: hash injective on the block values used, parity as encoded vector (MDS, discharged by C03), "
               "one content copy observed for the state (copy equality checked separately), scenarios without usable inodes; "
               "random 1 KiB blocks make collisions negligible.")
@@ -94,7 +110,7 @@ def main():
                 "thorough_cmd": "./verif check %s thorough" % i,
                 "evidence_file": "/verif/evidence/%s.json" % i,
                 "replay_cmd_template": "./verif replay {path}",
-                "engine": "tlc-array" if i in ("C01", "C04", "C05", "C06", "C07", "C08", "C11", "C12", "C14", "C19", "C20") else ("tlc-ioring" if i == "C13" else "tlc-pure"),
+                "engine": "tlc-array" if i in ("C01", "C04", "C05", "C06", "C07", "C08", "C11", "C12", "C14", "C19", "C20") else ("tlc-ioring" if i == "C13" else ("golden" if i == "C16" else "tlc-pure")),
                 "level_claimed": {"category": c["cat"], "text": c["text"], "design_ref": "DESIGN.md section " + c["design"]},
                 "level_note": c["note"],
                 "technique": c["technique"],
